@@ -14,7 +14,10 @@ static char *Str__back(struct Str *s);
 static size_t Str__find(struct Str *s, char c);
 static size_t Str__find_last_of_1(struct Str *s, const char *set);
 static size_t Str__find_last_of_2(struct Str *s, const char *set, size_t pos);
-static struct Str *Str__erase(struct Str *s, size_t pos, size_t n);
+static struct Str *Str__erase_2(struct Str *s, size_t pos, size_t n);
+static size_t Str__find_last_not_of_2(struct Str *s, const char *set, size_t pos);
+static size_t Str__find_last_not_of_1(struct Str *s, const char *set);
+static struct Str *Str__erase_1(struct Str *s, size_t pos);
 static const char *Str__c_str(struct Str *s);
 static void Str__ctor__char_ptr_std_allocator_char_ref(struct Str *d, const char *c);
 static void str_add_char(struct Str *a, char c, struct Str *r);
